@@ -20,7 +20,7 @@ SeqsOver(S, n) == UNION {[1..k -> S] : k \in 0..n}
 Chunks(s, n) == [k \in 1..((Len(s) + n - 1) \div n) |-> SubSeq(s, (k - 1) * n + 1, IF k * n < Len(s) THEN k * n ELSE Len(s))]
 
 Sp(tokens, pad, prefix, suffix) == [tokens |-> tokens, pad |-> pad, prefix |-> prefix, suffix |-> suffix]
-Wraps == {<< <<>>, <<>> >>, << <<"<b>">>, <<>> >>, << <<>>, <<"<e>">> >>, << <<"<b>", "<b>">>, <<"<e>", "<p>">> >>}
+Wraps == {<< <<>>, <<>> >>, << <<"<b>">>, <<>> >>, << <<>>, <<"<e>">> >>, << <<"<b>", "<e>", "<b>">>, <<"<e>", "<p>">> >>}
 
 Fam(f) == IOEnv.FAMILY = f
 TextCases == IF ~Fam("text") THEN {} ELSE
